@@ -55,6 +55,11 @@ type c11case struct {
 	// Ragged: the frame is built with frame.Values over columns of unequal capacity (column 0 has
 	// room for 3 more rows than the others); all of that room lies in storage the monitor owns
 	Ragged bool `json:"ragged,omitempty"`
+	// Spare: the columns handed to frame.Values are Go slices that are Spare rows shorter than
+	// their capacity (len = Cap-Spare, cap = Cap), as frame.Slices/Values callers with reused
+	// buffers have them: the root frame is itself shorter than its storage, and a view of it
+	// may be as long as the column values while starting at an offset
+	Spare int `json:"spare,omitempty"`
 }
 
 type c11state struct {
@@ -440,10 +445,18 @@ func runC11case(t *vf.T, c c11case) {
 			}
 		}
 	}
+	rootLen := c.Cap
+	if c.Spare > 0 && !c.Ragged && c.Spare <= c.Cap {
+		rootLen = c.Cap - c.Spare
+		fcols = make([]reflect.Value, len(st.cols))
+		for i, col := range st.cols {
+			fcols[i] = col.Slice3(0, rootLen, c.Cap)
+		}
+	}
 	base := frame.Values(fcols).Prefixed(c.Prefix)
-	root := &mview{st: st, off: 0, len: c.Cap, cap: c.Cap, prefix: c.Prefix, f: base}
+	root := &mview{st: st, off: 0, len: rootLen, cap: c.Cap, prefix: c.Prefix, f: base}
 	s.views = append(s.views, root)
-	if c.Off != 0 || c.Len != c.Cap {
+	if c.Off != 0 || c.Len != rootLen {
 		s.views = append(s.views, &mview{st: st, off: c.Off, len: c.Len, cap: c.Cap - c.Off, prefix: c.Prefix, f: base.Slice(c.Off, c.Off+c.Len)})
 		t.Nontrivial("")
 	}
@@ -481,6 +494,7 @@ func runC11case(t *vf.T, c c11case) {
 var c11opNames = []string{"slice", "prefixed", "grow", "ensure", "copy", "append", "swap", "less", "hash", "zero", "read", "codec", "sort"}
 
 func runC11(r *vf.Runner) {
+	nspare := 0
 	run := func(c c11case) {
 		r.Case(c, func(t *vf.T) { runC11case(t, c) })
 		if len(frameSchemas[c.Schema].Cols) > 1 && (c.Cap <= 3 || !r.Quick()) {
@@ -488,6 +502,30 @@ func runC11(r *vf.Runner) {
 			r.Case(c, func(t *vf.T) {
 				runC11case(t, c)
 				t.Count("frames_over_columns_of_unequal_capacity", 1)
+			})
+		}
+		// columns shorter than their capacity: every spare size for small frames (quick: up to 3
+		// rows of storage and every 5th larger case; thorough: all)
+		c.Ragged = false
+		nspare++
+		for sp := 1; sp <= c.Cap; sp++ {
+			if c.Off+c.Len > c.Cap {
+				break
+			}
+			if len(c.Ops) > 1 && sp != 1+nspare%c.Cap {
+				continue // operation sequences: one spare size each
+			}
+			if r.Quick() && c.Cap > 3 && len(c.Ops) == 1 && (nspare+sp)%5 != 0 {
+				continue
+			}
+			c.Spare = sp
+			cc := c
+			r.Case(cc, func(t *vf.T) {
+				runC11case(t, cc)
+				t.Count("frames_over_columns_shorter_than_their_capacity", 1)
+				if cc.Off > 0 && cc.Len == cc.Cap-cc.Spare {
+					t.Count("offset_views_as_long_as_the_column_values", 1)
+				}
 			})
 		}
 	}
